@@ -57,7 +57,8 @@ Qed.
 Lemma find_free_spec names pref : forall fuel k,
   (forall j, j < k -> mem (cand pref j) names = true) ->
   List.length names < fuel + k ->
-  exists m, find_free fuel names pref (cand pref k) (S k) = cand pref m /\ mem (cand pref m) names = false.
+  exists m, find_free fuel names pref (cand pref k) (S k) = cand pref m /\
+            (negb (cand pref m =? "") && mem (cand pref m) names) = false.
 Proof.
   induction fuel as [|f IH]; intros k Hall Hlen.
   - (* k distinct candidates all inside names: impossible *)
@@ -68,18 +69,18 @@ Proof.
     { intros s Hs. apply in_map_iff in Hs. destruct Hs as [j [<- Hj]]. apply in_seq in Hj.
       apply mem_In. apply Hall. lia. }
     pose proof (NoDup_incl_length Hnd Hincl) as L. rewrite map_length, seq_length in L. lia.
-  - cbn [find_free]. destruct (mem (cand pref k) names) eqn:E.
+  - cbn [find_free]. destruct (negb (cand pref k =? "") && mem (cand pref k) names) eqn:E.
     + change (pref ++ nat_str (S k))%string with (cand pref (S k)).
-      apply (IH (S k)); [|lia].
+      apply (IH (S k)); [|lia]. apply andb_true_iff in E. destruct E as [_ E].
       intros j Hj. destruct (Nat.eq_dec j k) as [->|Hne]; [exact E|apply Hall; lia].
     + exists k. split; [reflexivity|exact E].
 Qed.
 
 Theorem find_free_is_free names pref :
-  mem (find_free (S (List.length names)) names pref pref 1) names = false.
+  let r := find_free (S (List.length names)) names pref pref 1 in (negb (r =? "") && mem r names) = false.
 Proof.
   destruct (find_free_spec names pref (S (List.length names)) 0) as [m [Hm Hf]]; [intros j Hj; lia|lia|].
-  change (cand pref 0) with pref in Hm. rewrite Hm. exact Hf.
+  change (cand pref 0) with pref in Hm. cbv zeta. rewrite Hm. exact Hf.
 Qed.
 
 (* ---- names chosen for ordinary imports are pairwise distinct ------------------------------ *)
@@ -115,13 +116,18 @@ Qed.
 Definition ordinary (names : amap) : list string := filter (fun n => negb (String.eqb n "")) (values names).
 
 Lemma find_alias_free resolved names path preferred :
-  ~ In (fst (find_alias resolved names path preferred)) (values names).
+  fst (find_alias resolved names path preferred) = "" \/ ~ In (fst (find_alias resolved names path preferred)) (values names).
 Proof.
   unfold find_alias.
   set (pref := if negb (preferred =? "") then preferred else match aget resolved path with Some n => n | None => "" end).
-  pose proof (find_free_is_free (values names) pref) as H.
+  pose proof (find_free_is_free (values names) pref) as H. cbv zeta in H.
   unfold values in *. rewrite map_length in H.
-  destruct (negb (negb (preferred =? "")) && _); cbn [fst]; intros Hin; apply mem_In in Hin; congruence.
+  set (r := find_free _ _ _ _ _) in *.
+  assert (Hr : r = "" \/ ~ In r (map snd names)).
+  { apply andb_false_iff in H. destruct H as [H|H].
+    - left. apply negb_false_iff in H. apply String.eqb_eq in H. exact H.
+    - right. intros Hin. apply mem_In in Hin. congruence. }
+  destruct (negb (negb (preferred =? "")) && _); cbn [fst]; exact Hr.
 Qed.
 
 Theorem names_distinct resolved eff : forall ordered names aliases,
@@ -149,7 +155,7 @@ Proof.
       * exact Hdist.
       * intros Hin. apply filter_In in Hin. destruct Hin as [Hin _].
         pose proof (find_alias_free resolved names p (match aget eff p with Some a => a | None => "" end)) as Hfree.
-        rewrite Hfa in Hfree. cbn [fst] in Hfree. apply Hfree. exact Hin.
+        rewrite Hfa in Hfree. cbn [fst] in Hfree. destruct Hfree as [He|Hfree]; [subst n; discriminate|]. apply Hfree. exact Hin.
 Qed.
 
 (* ---- failure: reported before anything is built -------------------------------------------- *)
